@@ -3,6 +3,7 @@ import CallbagModel.Inv.Combine
 import CallbagModel.Inv.ComposeFull
 import CallbagModel.Inv.ComposeInst
 import CallbagModel.Inv.ConcatFull
+import CallbagModel.Inv.FlatPlugSafe
 import CallbagModel.Inv.FlattenFull
 import CallbagModel.Inv.ForEachFull
 import CallbagModel.Inv.FromIterFull
@@ -88,6 +89,12 @@ theorem C05_closed_pipeline {S1 L1 S2 L2 α β γ : Type} {Msrc : Machine S1 L1 
     (hsrc : UpSide Msrc) (hmid : Pipeable Mmid) :
     ∀ s, SReach (compose (compose Msrc Mmid) (ForEach.machine γ)) s → SafeFor 5 s :=
   fun s hs => (ComposeFull.closed_pipeline_full hsrc hmid s hs).1.safeFor 5
+
+/-- `flatten(map(g)(outer))` as a network (`Ops/FlatPlug.lean`: the outer source and every dynamically created inner source are closed
+head-capable sources), alone or heading a closed pipeline: C05 in full -/
+theorem C05_flatten_network {So Lo Si Li αo αi : Type} {Mo : Machine So Lo αo Int} {Mi : Machine Si Li αi Int} {initOf : Int → Si}
+    (H : FlatPlugSafe.HypF Mo Mi initOf) : ∀ s, SReach (flatPlug Mo Mi initOf) s → SafeFor 5 s :=
+  fun s hs => (FlatPlugSafe.flatPlug_safe H s hs).1.safeFor 5
 
 /-- `pipe!(from_iter(it), stages…)` as a source, against every conformant sink: C05 in full -/
 theorem C05_fromIter_pipeline {ι α α' β S L : Type} (next : ι → Option (α × ι)) (it0 : ι) {Mmid : Machine S L α β}
